@@ -155,7 +155,19 @@ def mutate(s, m):
     elif cl == "inherited_redeclared":
         E[1]["attrs"].append({"name": "a1", "ty": {"base": "INTEGER", "agg": "none", "lo": 0, "hi": 0, "uniq": False, "optelem": False}, "opt": False})
     elif cl == "select_cycle":
-        body = "TYPE s1 = SELECT (s2);\nEND_TYPE;\nTYPE s2 = SELECT (s1);\nEND_TYPE;\n"
+        pos = m.get("pos", "")
+        use = "ENTITY eu;\n  item : s1;\nWHERE\n  wu : %s > 0;\nEND_ENTITY;\n"
+        if pos == "":
+            body = "TYPE s1 = SELECT (s2);\nEND_TYPE;\nTYPE s2 = SELECT (s1);\nEND_TYPE;\n"
+        elif pos == "entity_first_dot":
+            body = "TYPE s1 = SELECT (e1, s2);\nEND_TYPE;\nTYPE s2 = SELECT (e2, s1);\nEND_TYPE;\n" + use % "item.a1"
+        elif pos == "select_first_dot":
+            body = "TYPE s1 = SELECT (s2, e1);\nEND_TYPE;\nTYPE s2 = SELECT (s1, e2);\nEND_TYPE;\n" + use % "item.a1"
+        elif pos == "entity_first_group":
+            body = "TYPE s1 = SELECT (e1, s2);\nEND_TYPE;\nTYPE s2 = SELECT (e2, s1);\nEND_TYPE;\n" + use % "item\\e1.a1"
+        else:
+            body = ("TYPE s1 = SELECT (e1, s2);\nEND_TYPE;\nTYPE s2 = SELECT (e2, s3);\nEND_TYPE;\nTYPE s3 = SELECT (e3, s1);\nEND_TYPE;\n"
+                    + use % "item.a1")
     elif cl == "lex_underscore_ident":
         E[0]["attrs"].append({"name": "_bad", "ty": {"base": "INTEGER", "agg": "none", "lo": 0, "hi": 0, "uniq": False, "optelem": False}, "opt": False})
     elif cl == "lex_unexpected_char":
